@@ -47,6 +47,7 @@ type Params struct {
 	GraceMs       int       `json:"grace_ms"` // >0: scenario of the short-grace batch; second closer holds longer than the grace
 	HoldMs        int       `json:"hold_ms"`
 	TimeoutMs     int       `json:"timeout_ms"`
+	HeadVariant   int       `json:"head_variant"`    // CONNECT request head: 0 plain, 1 HTTP/1.0, 2 Connection: close, 3 Content-Length: 5, 4 Proxy-Connection: keep-alive, 5 Expect + TE headers
 	ViaProxy      bool      `json:"via_proxy"`       // upgrade: the request goes through a scripted upstream HTTP proxy
 	ReadTimeoutMs int       `json:"read_timeout_ms"` // >0: through the proxy instance configured with this ReadTimeout
 }
@@ -403,7 +404,20 @@ func (sc *scenario) clientHead() []byte {
 		return []byte("GET " + scheme + "://" + host + "/tunnel HTTP/1.1\r\nHost: " + host + "\r\n" + pad +
 			"Connection: Upgrade\r\nUpgrade: verif-tunnel\r\n\r\n")
 	}
-	return []byte("CONNECT " + host + " HTTP/1.1\r\nHost: " + host + "\r\n" + pad + "\r\n")
+	proto, extra := "HTTP/1.1", ""
+	switch sc.HeadVariant {
+	case 1:
+		proto = "HTTP/1.0"
+	case 2:
+		extra = "Connection: close\r\n"
+	case 3:
+		extra = "Content-Length: 5\r\n" // has no meaning on CONNECT: what follows the head is the tunnel
+	case 4:
+		extra = "Proxy-Connection: keep-alive\r\nUser-Agent: scripted\r\n"
+	case 5:
+		extra = "Connection: keep-alive\r\nTE: trailers\r\n"
+	}
+	return []byte("CONNECT " + host + " " + proto + "\r\nHost: " + host + "\r\n" + extra + pad + "\r\n")
 }
 
 var upReplies = []string{
